@@ -1,6 +1,6 @@
 """C07 — binding-map fast path is sound and only offered where complete (DESIGN.md §9 C07)."""
 import copy, json
-from . import core, tmplgen as tg, render, update as up
+from . import exprgen as eg, core, tmplgen as tg, render, update as up
 
 THEOREMS = [
     "GE.BM.advertised_iff",
@@ -8,6 +8,35 @@ THEOREMS = [
     "GE.BM.size_eq_count",
     "GE.BM.fstate_step",
 ]
+
+
+DIRECTED_D0 = {"l": [{"k": "x"}, {"k": "y"}], "n": 0, "c": True, "a": "A", "b": "B", "d": None, "o": {"p": 1, "q": 2}, "k": "p", "f": {"$": "fn", "name": "id"}}
+DIRECTED_FLIPS = {"n": [1], "c": [False, 0], "d": ["D", 0], "k": ["q"], "a": ["A2"], "b": ["B2"], "o": [{"p": 3, "q": 4}], "l": [[{"k": "z"}, {"k": "w"}]]}
+
+
+def directed_templates():
+    d = lambda n: ("data", n)
+    exprs = [("smember", ("dmember", d("l"), d("n")), "k"), ("cond", d("c"), d("a"), d("b")), ("bin", "NullishCoalescing", d("d"), d("b")),
+             ("dmember", d("o"), d("k")), ("bin", "Plus", ("dmember", d("o"), d("k")), ("cond", d("c"), d("a"), d("b"))),
+             ("call", d("f"), [("dmember", d("o"), d("k"))])]
+    fams = [("plain", "title"), ("plain", "hidden"), ("class", "class"), ("style", "style"), ("id", "id"), ("slot", "slot"), ("data-", "a-b"), ("data:", "xy"),
+            ("mark:", "m"), ("model:", "value"), ("bind:", "tap"), ("change:", "prop")]
+    out = []
+    for e in exprs:
+        try:
+            eg.src(e, "min")
+        except Exception:
+            continue
+        for fam, name in fams:
+            if fam in ("model:",) and e[0] not in ("smember", "dmember", "cond"):
+                continue
+            for v in (("expr", e), ("mixed", [("s", "p"), ("e", e), ("s", "q")])):
+                if v[0] == "mixed" and fam in ("model:", "bind:", "change:"):
+                    continue
+                out.append({"path": "p", "nodes": [("elem", "view", [(fam, name, v)], [])], "subs": {}, "modules": [], "slot_values": False, "src_modules": []})
+        out.append({"path": "p", "nodes": [("elem", "view", [], [("text", ("expr", e))]), ("text", ("mixed", [("s", "t"), ("e", e)]))], "subs": {}, "modules": [],
+                    "slot_values": False, "src_modules": []})
+    return out
 
 
 def run(chk):
@@ -46,13 +75,20 @@ def run(chk):
         t = g.template()
         ts.append(t)
         srcs.append(tg.Printer().template(t))
+    # directed: every attribute family (and text) x expressions with hoisted temporaries (index, condition, ?? operand) in the static part of
+    # the tree, updated through the binding map of the field the temporary depends on
+    ndirected = 0
+    for t in directed_templates():
+        ts.append(t)
+        srcs.append(tg.Printer().template(t))
+        ndirected += 1
     groups = render.compile_templates([[["p", s]] for s in srcs])
     reqs, meta = [], []
     for i, (t, g) in enumerate(zip(ts, groups)):
         if "panic" in g or not isinstance(g.get("gen_groups"), str):
             chk.violation("input", "compiler failed on generated template", template=srcs[i], answer=json.dumps(g)[:300])
             continue
-        D0 = render.DATA_POOL[i % len(render.DATA_POOL)]
+        D0 = render.DATA_POOL[i % len(render.DATA_POOL)] if i < len(ts) - ndirected else DIRECTED_D0
         reqs.append({"op": "render", "gen_groups": g["gen_groups"], "path": "p", "steps": [{"create": D0}]})
         meta.append((i, D0))
     outs = core.run_node(reqs)
@@ -71,9 +107,10 @@ def run(chk):
                 chk.violation("input", f"field {f!r} is advertised but never read in a statically reachable position", template=srcs[i], field=f)
         r = rng.fork(("v", i))
         for f in B:
-            for k in range(2):
+            flips = DIRECTED_FLIPS.get(f, []) if D0 is DIRECTED_D0 else []
+            for k in range(2 + len(flips)):
                 D1 = dict(D0)
-                D1[f] = copy.deepcopy(r.choice(up.LEAF_POOL))
+                D1[f] = copy.deepcopy(r.choice(up.LEAF_POOL)) if k < 2 else flips[k - 2]
                 g = groups[i]
                 reqs2.append({"op": "render", "gen_groups": g["gen_groups"], "path": "p", "steps": [{"create": D0}, {"bindmap": f, "D": D1}]})
                 reqs2.append({"op": "render", "gen_groups": g["gen_groups"], "path": "p", "steps": [{"create": D1}]})
